@@ -60,6 +60,11 @@ func (ps *PartitionSet) AddRange(partName, modelName string, start, end, modulo 
 			return
 		}
 		ps.partitions[i] = partitionIndex
+		// Stop before i+modulo goes past the end: with a very large modulo
+		// the addition would overflow and give a negative index
+		if modulo > end-i {
+			break
+		}
 	}
 	return
 }
